@@ -495,7 +495,7 @@ THREAD_HARNESSES = {
 
 
 def thread_bodies(hname):
-    specs = THREAD_HARNESSES[hname]
+    specs = THREAD_HARNESSES[hname.split("@")[0]]
     mk = []
     for k, (key, side, pw, x) in enumerate(specs):
         inst = pinst(key)
@@ -516,10 +516,16 @@ def thread_expected(hname):
     return [T.observe(b) for b in thread_bodies(hname)]
 
 
+def _opc(hname):
+    return hname.endswith("@opcode")
+
+
 def _thread_root_task(task):
     hname, bound = task
     thread_expected(hname)      # warm-up: every explored execution then starts from the same (warm) process state
-    r = sched.Run(thread_bodies(hname), [], T.PKG)
+    if _opc(hname):
+        sched.warm_opcodes(thread_bodies(hname), T.PKG)
+    r = sched.Run(thread_bodies(hname), [], T.PKG, _opc(hname))
     res = r.run()
     alts = sched.alternatives(r, 0, bound)
     return hname, res, alts, len(r.points)
@@ -529,6 +535,8 @@ def _thread_task(task):
     hname, bound, prefixes = task
     acc = Acc()
     exp = thread_expected(hname)
+    if _opc(hname):
+        sched.warm_opcodes(thread_bodies(hname), T.PKG)
     outcomes = set()
 
     def on_result(res, run):
@@ -543,7 +551,7 @@ def _thread_task(task):
     n = 0
     for p in prefixes:
         try:
-            n += sched.explore(lambda: thread_bodies(hname), bound, T.PKG, on_result, prefix=p)
+            n += sched.explore(lambda: thread_bodies(hname), bound, T.PKG, on_result, prefix=p, opcodes=_opc(hname))
         except sched.Divergence as e:
             # the execution path under the same schedule prefix changed between executions: state is carried over between
             # executions (e.g. a cache).  Not a verdict by itself - the interleaving enumerations decide.
@@ -557,8 +565,8 @@ def _thread_task(task):
 def run_threads(acc, tier):
     bound = 1 if tier == "quick" else 2
     names = ["TH/T23-same-params", "TH/T23-S-S", "TH/T23+T29", "TH/T23+T23'", "TH3/T23-three-sessions"] + \
-            ([] if tier == "quick" else ["TH/T509+T23", "TH/E37", "TH3/T23-S"])
-    b1 = lambda n: 1 if (n == "TH/E37" or n.startswith("TH3/")) else bound
+            ([] if tier == "quick" else ["TH/T509+T23", "TH/E37", "TH3/T23-S", "TH/T23-same-params@opcode", "TH/T23+T23'@opcode"])
+    b1 = lambda n: 1 if (n == "TH/E37" or n.startswith("TH3/") or _opc(n)) else bound
     roots = core.pmap(_thread_root_task, [(n, b1(n)) for n in names])
     jobs = []
     for hname, res, alts, npoints in roots:
@@ -570,7 +578,7 @@ def run_threads(acc, tier):
             acc.violation("C16/threads/%s/differs-from-isolated-run" % hname.split("/")[1],
                           {"what": "even the default (non-preemptive) 2-thread schedule differs from the isolated runs",
                            "replay": {"fn": "schedule", "harness": hname, "choices": []}, "expected": exp, "observed": res})
-        for ch in core.chunks(alts, 64 if b > 1 else 8):
+        for ch in core.chunks(alts, 64 if (b > 1 or _opc(hname)) else 8):
             jobs.append((hname, b, ch))
     core.pmerge(_thread_task, jobs, acc)
     if len(acc.samples) < 6:
@@ -634,5 +642,5 @@ def replay(rec):
         a = Acc()
         H.check_isolated(a)
         return sorted(a.viol)
-    run_ = sched.Run(thread_bodies(r["harness"]), r["choices"], T.PKG)
+    run_ = sched.Run(thread_bodies(r["harness"]), r["choices"], T.PKG, _opc(r["harness"]))
     return run_.run()
